@@ -4,9 +4,10 @@ import BearVerif.Core.Wrap
   Line-protocol driver for C04: `(c04 SIG (CALL…))`
     SIG   = ((PARAM…) (PARAM…) VAR (PARAM…) VAR RETANN)   posonly, flex, *varpos, kwonly, **varkw, return annotated
     PARAM = (name ann dflt)  with ann/dflt ∈ {0,1};  VAR = none | PARAM
-    CALL  = ((val…) ((name val)…) ((name val)…) BODY)     args, kwargs, failing (parameter, value) pairs, body
+    CALL  = ((val…) ((name val)…) (SCEN…))                args, kwargs, scenarios
+    SCEN  = (((name val)…) BODY)                          failing (parameter, value) pairs, body
     BODY  = (ret val) | (exc val)
-  answer: (ITER FACTS (RES…)), RES = (BIND EXPECTED ARGCHECKS TRACE RESULT RAN).
+  answer: (ITER KEYWORDABLE FACTS (RES…)), RES = (BIND EXPECTED ARGCHECKS ((TRACE RESULT RAN)…)).
 -/
 namespace BearVerif.Wrap
 open BearVerif
@@ -39,14 +40,21 @@ def bodyOf : Sexp → Option BodyRes
   | .list [.atom "exc", v] => v.nat?.map .exc
   | _ => none
 
-structure Req where
-  call : Call
+structure Scen where
   bad : List (Name × Val)
   body : BodyRes
 
+structure Req where
+  call : Call
+  scens : List Scen
+
+def scenOf : Sexp → Option Scen
+  | .list [b, body] => do pure ⟨← (← b.items?).mapM pairOf, ← bodyOf body⟩
+  | _ => none
+
 def reqOf : Sexp → Option Req
-  | .list [a, k, b, body] => do
-    pure ⟨⟨← (← a.items?).mapM Sexp.nat?, ← (← k.items?).mapM pairOf⟩, ← (← b.items?).mapM pairOf, ← bodyOf body⟩
+  | .list [a, k, sc] => do
+    pure ⟨⟨← (← a.items?).mapM Sexp.nat?, ← (← k.items?).mapM pairOf⟩, ← (← sc.items?).mapM scenOf⟩
   | _ => none
 
 def natS (n : Nat) : Sexp := .atom (toString n)
@@ -81,11 +89,14 @@ def resultS : Result → Sexp
   | .paramViolation n v => .list [.atom "paramViolation", .atom n, natS v]
   | .returnViolation v => .list [.atom "returnViolation", natS v]
 
+def runScen (s : Sig) (c : Call) (sc : Scen) : Sexp :=
+  let ok := fun n v => !(sc.bad.contains (n, v))
+  let o := wrapperRun ok (fun _ => sc.body) s c
+  .list [.list (o.trace.map pairS), resultS o.result, natS o.ran]
+
 def runReq (s : Sig) (r : Req) : Sexp :=
-  let ok := fun n v => !(r.bad.contains (n, v))
-  let o := wrapperRun ok (fun _ => r.body) s r.call
   .list (bindS s (pyBind s r.call) ++
-    [.list ((argChecks s r.call).map pairS), .list (o.trace.map pairS), resultS o.result, natS o.ran])
+    [.list ((argChecks s r.call).map pairS), .list (r.scens.map (runScen s r.call))])
 
 def factsS (f : CodeFacts) : Sexp :=
   .list [natS f.argcount, natS f.posonlyargcount, natS f.kwonlyargcount, bS f.varargs, bS f.varkeywords,
@@ -102,5 +113,39 @@ def handle (args : List Sexp) : Option Sexp := do
                  factsS (factsOf s),
                  .list (reqs.map (runReq s))])
   | _ => none
+
+/-! ### a faster front end than `Sexp.parse` + `runLoop`
+
+  `Sexp.tokens` walks the line character by character in the interpreter (≈10 µs/char: 4 s for a 300 kB batch).
+  The harness therefore sends every parenthesis surrounded by blanks — still the same s-expressions — and the line is
+  tokenised by the natively compiled `String.splitOn`; the token array goes through the shared `Sexp.parseList`. -/
+
+def fastParse (line : String) : Option Sexp :=
+  let ts := ((((line.splitOn "\n").headD "").splitOn " ").filter (fun t => t != "")).toArray
+  if h : 0 < ts.size then
+    if ts[0] == "(" then
+      match Sexp.parseList ts 1 #[] with
+      | some (xs, j) => if j == ts.size then some (.list xs) else none
+      | none => none
+    else none
+  else none
+
+partial def serveLoop (inp out : IO.FS.Stream) : IO Unit := do
+  let line ← inp.getLine
+  if line.isEmpty then return ()
+  let resp := match fastParse line with
+    | some (.list (.atom "c04" :: args)) => (match handle args with
+        | some r => "(ok " ++ r.toStr ++ ")"
+        | none => "(bad-op)")
+    | _ => "(bad-op)"
+  out.putStrLn resp
+  serveLoop inp out
+
+/-- same contract as `runLoop`: one request per line, one `(ok …)` / `(bad-op)` line back -/
+def serve : IO Unit := do
+  let inp ← IO.getStdin
+  let out ← IO.getStdout
+  serveLoop inp out
+  out.flush
 
 end BearVerif.Wrap
